@@ -16,6 +16,15 @@ CHECKS = {
  "C05": ("SI", "explicit-state BFS over Handle/Remove/Clean histories with a hostile request alphabet in every state, plus exhaustive enumeration of all pattern strings up to a length bound through every pattern-taking entry point",
          "(a) every state of the lifecycle search (depth 3 quick / 4 thorough) probed with empty/unknown methods and hostile paths ('', '*', all byte strings over a 9-byte alphabet incl. NUL and non-UTF-8 up to length 2-3, edit-1 neighbours of witnesses, 32K/64K paths); groups behind every matcher kind with all Host strings over an 8-byte alphabet up to length 3 and malformed Accept values; (b) all 3.3M (quick, len<=6) / 39M (thorough, len<=7) pattern strings over a 12-byte syntax alphabet through CheckSyntax, URL, Router.URL, Handle on fresh and populated routers, then served.",
          "Bounded string lengths and alphabets chosen to contain every byte the parser and matcher distinguish; the harness handler never panics by itself.", "4/C05"),
+ "C06": ("C", "stateless DFS over thread schedules of the real router under a controlled scheduler (points at lock announce/acquire/release, pool get/put, handler entry/exit, operation boundaries), iterative preemption bounding, race detector as per-execution oracle plus brute-force linearizability against sequential re-execution",
+         "All 2- and 3-thread scenarios over the C06 writer/reader alphabet (about 330 quick) on a WithLock(true) router; every interleaving up to 2 preemptions (quick) / 3-4 (thorough) is executed under -race with a hand-off the detector cannot see, so conflicting accesses that mux does not order are reported for that schedule; no panic, no nil handler, no deadlock (writer preference modelled), every result vector linearizable and the final Routes() equal to that linearization's.",
+         "Preemption-bounded; 2-3 threads x 1-2 operations; weak-memory effects of racy code are not explored (a race is itself the violation); Router.Use is outside the property's list and the alphabet; the Allow header read by user handlers at request time is not part of the compared response.", "4/C06"),
+ "C08": ("SI", "exhaustive enumeration of handler write programs run under GET and HEAD on a wire-semantics ResponseWriter, plus explicit-state BFS over add/remove histories on one pattern",
+         "Every handler program of length <=4 (quick, 7.4k) / <=5 (thorough, 66k) over WriteHeader/Write(0,1,3)/Set/Del steps: same status, same headers as sent except Content-Length, zero body bytes, Content-Length = bytes written when the handler sends no header itself. Every history of depth <=4/6 on a pattern with a splitting sibling, with and without WithTrace: HEAD iff GET with GET's handler, OPTIONS iff live, reserved/unknown registrations rejected without effect.",
+         "The wire.Writer models net/http only as far as 'when is the header block sent'.", "4/C08"),
+ "C09": ("S", "explicit-state BFS over programs of configuration calls (Use / Prefix / nested Prefix / Resource / Handle with middlewares / Remove / Clean; Group.Use/New/Add) on the real router, onion-order reference model on every state",
+         "Every program up to depth 5 (quick) / 7 (thorough), with and without WithTrace, and group programs: for each handler kind of each live pattern and for 404, TRACE, OPTIONS *, the '*' 405 and the group not-found, the wrapper chain seen at request time equals the documented order; each wrapper stems from exactly one factory call with the right (method, pattern, router); each step causes exactly the predicted number of factory invocations.",
+         "Bounded depth; fixed middleware names and facade objects (P1=/p[D], P2=P1/q[E,F], R=P1/r/{id}[G]).", "4/C09"),
  "C17": ("S", "explicit-state BFS over registration histories; in every state every member of a rejected-call set is executed on a replayed copy and the full observation vector is compared before/after; positive clauses by exhaustive enumeration of ordered pattern pairs",
          "Every state over the C04 alphabet up to depth 2 (quick) / 4 (thorough), with and without WithTrace, x ~80 rejected Handle calls (duplicates, bad method lists in every position, malformed patterns sharing prefixes, rename-only patterns): must panic with an error value and leave Routes(), all dispatch outcomes, Allow headers and OPTIONS * unchanged. All ordered pairs over the dispatch pool and its renamed / '-'-flipped variants decide always-rejected and never-falsely-ambiguous.",
          "Bounded depth and pools; internal restructuring without observable effect is reported as a note only, as the property is about observable state.", "4/C17"),
